@@ -122,7 +122,7 @@ Definition kc_p521 : keyconf :=
 Definition keys_p521 : list pubkey := [ {| pk_id := 1; pk_type := KEd25519 |}; {| pk_id := 2; pk_type := KP521 |} ].
 Definition idp_p521 : idp :=
   {| srv := server_of (b "https://keymaster.example") (b "https://keymaster.example/idp/oauth2/userinfo") keys_p521 (kc_signer kc_p521);
-     clients := [ {| cl_id := b "clientA"; cl_secret := b "secretA" |}; {| cl_id := b "clientB"; cl_secret := [] |} ] |}.
+     clients := [ {| cl_id := b "clientA"; cl_secret := b "secretA"; cl_allow_aud := false |}; {| cl_id := b "clientB"; cl_secret := []; cl_allow_aud := false |} ] |}.
 
 Definition areq_w (client chal meth : bs) : areq :=
   {| ar_method_ok := true; ar_response_type := rt_code; ar_client := client; ar_scope := b "openid";
